@@ -485,7 +485,7 @@ def lexLoop (tb : Int) : Nat → List Nat → Int → Bool → Option Out
     else if ch = 116 then consO (readTiming tb cur)
     else if isUpper ch ∨ ch = 95 then
       -- `cur.prev()`: the raw text at the command character decides
-      if startsWith wEnd1 (c :: cs) ∨ startsWith wEnd2 (c :: cs) then some ⟨[], []⟩
+      if (startsWith wEnd1 (c :: cs) ∨ startsWith wEnd2 (c :: cs)) ∧ isWordChar (peek ((c :: cs).drop 3)) = false then some ⟨[], []⟩
       else
         let w := getWord (c :: cs)
         if w.1 = wSub ∨ w.1 = [83] then
